@@ -1,7 +1,13 @@
 /-
-C03: `__init__` establishes the invariant on a plus-variant chip, from any well-formed world.
+C03: `__init__` detects the chip variant, unlocks the feature registers of a non-plus chip and
+establishes the invariant — from any well-formed world: plus or non-plus chip, feature registers
+locked or unlocked, any register contents.  (The variant detection itself is analysed in
+`NrfProofs/InitDetect.lean`.)
 -/
 import NrfProofs.C03.Enter
+import NrfProofs.InitDetect
+
+set_option linter.unusedSimpArgs false
 
 namespace Nrf
 open Rf24 Cfg
@@ -10,16 +16,6 @@ theorem readBytes_after_read (t : DrvState) (r : Nat) (d : Bytes) (reg : Nat) (h
     (hreg : reg = 0x0A ∨ reg = 0x0B ∨ reg = 0x10) :
     (t.spiStep (r :: d)).readBytes reg 5 = t.readBytes reg 5 := by
   rw [readBytes_eq _ _ hreg, readBytes_eq _ _ hreg, spiStep_read_cfg _ _ _ hw hr]
-
-theorem readVal_after_activate (t : DrvState) (v reg : Nat) (hw : t.Wf) (hp : t.cfg.plus = true)
-    (hreg : reg < 0x20) (hc : reg ≠ 7 ∧ reg ≠ 8 ∧ reg ≠ 9 ∧ reg ≠ 0x17) :
-    (t.spiStep [0x50, v]).readVal reg = t.readVal reg := by
-  rw [readVal_eq _ _ hreg hc, readVal_eq _ _ hreg hc, spiStep_activate_cfg _ _ hw hp]
-
-theorem readBytes_after_activate (t : DrvState) (v reg : Nat) (hw : t.Wf) (hp : t.cfg.plus = true)
-    (hreg : reg = 0x0A ∨ reg = 0x0B ∨ reg = 0x10) :
-    (t.spiStep [0x50, v]).readBytes reg 5 = t.readBytes reg 5 := by
-  rw [readBytes_eq _ _ hreg, readBytes_eq _ _ hreg, spiStep_activate_cfg _ _ hw hp]
 
 theorem readBytes_modShadow (t : DrvState) (f : Rf24 → Rf24) (reg n : Nat) (hf : ∀ d, (f d).rid = d.rid) :
     (t.modShadow f).readBytes reg n = t.readBytes reg n := by
@@ -35,115 +31,262 @@ def initSuffix : DrvM Unit := do
   Rf24.exit
 
 /-- `flush_rx(); flush_tx(); clear_status_flags()` change no configuration register -/
-theorem flushes_post (s : DrvState) (h : Inv s) :
+theorem flushes_post' (s : DrvState) (hw : s.Wf) (hc : Cached s.d s.cfg) :
     Post (exec (do flushRx; flushTx; clearStatusFlags : DrvM Unit) s) s (.ok ()) s.cfg s.d.pipe0ReadAddr := by
   unfold flushRx flushTx clearStatusFlags
   simp only [exec_bind, exec_regCmd, Rf24.b2n, ↓reduceIte]
   rw [exec_regWrite _ _ _ (by decide) (by decide)]
-  refine Post.of_reach (by reach h.wf) h.wf ?_ rfl { h.cached with }
+  refine Post.of_reach (by reach hw) hw ?_ rfl { hc with }
   rfl
+
+theorem flushes_post (s : DrvState) (h : Inv s) :
+    Post (exec (do flushRx; flushTx; clearStatusFlags : DrvM Unit) s) s (.ok ()) s.cfg s.d.pipe0ReadAddr :=
+  flushes_post' s h.wf h.cached
+
+/-- `__exit__` needs only the cached CONFIG (in range) of the invariant -/
+theorem exit_post' (s : DrvState) (hw : s.Wf) (hca : Cached s.d s.cfg) (hcfg : s.cfg.config < 128) :
+    Post (exec Rf24.exit s) s (.ok ()) { s.cfg with ce := false, config := setBit s.cfg.config 1 false }
+      s.d.pipe0ReadAddr := by
+  have hb := bits_pwr_off _ hcfg
+  unfold Rf24.exit
+  exec_simp [hca.config, hb.1]
+  rw [exec_regWrite_nat _ _ _ (by omega) (by decide)]
+  exec_simp []
+  refine Post.of_reach (by reach hw) hw ?_ rfl ?_
+  · rw [Radio.w_config _ _ hb.2.1 (.inl rfl)]; rfl
+  · refine { hca with config := ?_ }
+    show s.d.config &&& 0x7D = _
+    rw [hca.config]; exact hb.1
+
+/-- sequencing when only well-formedness and the cache equations are carried along (no range facts) -/
+theorem Post.bind_weak {α β} {x : DrvM α} {f : α → DrvM β} {s : DrvState} {a : α} {c1 : Radio} {p1 : Option Bytes}
+    {r : Except PyErr β} {c2 : Radio} {p2 : Option Bytes}
+    (h1 : Post (exec x s) s (.ok a) c1 p1)
+    (h2 : ∀ s1 : DrvState, s1.Wf → Cached s1.d s1.cfg → s1.cfg = c1 → s1.d.pipe0ReadAddr = p1 →
+      Post (exec (f a) s1) s1 r c2 p2) :
+    Post (exec (x >>= f) s) s r c2 p2 := by
+  rw [exec_bind]
+  have h3 := h2 _ h1.wf (h1.cfg ▸ h1.cached) h1.cfg h1.p0
+  have hres := h1.res
+  rcases hx : exec x s with ⟨r1, s1⟩
+  rw [hx] at h1 h3 hres
+  simp only at hres
+  subst hres
+  exact Post.trans h1 h3
 
 theorem initSuffix_eq : initSuffix = (enter >>= fun _ =>
     (do flushRx; flushTx; clearStatusFlags : DrvM Unit) >>= fun _ => Rf24.exit) := rfl
 
-theorem init_finish {s t : DrvState} (hst : Steps s t) (hw : s.Wf) (hso : ShadowOk t.d) (hrs : RadioShape t.cfg)
-    (hplus : t.cfg.plus = true) (hip : t.d.isPlus = true) (hlog : LogOk t.cfg.violations) :
-    (exec initSuffix t).1 = .ok () ∧ Inv (exec initSuffix t).2 ∧
-    ∀ j, j ≠ s.d.rid → (exec initSuffix t).2.cfgAt j = s.cfgAt j := by
+/-- the register file `__init__` leaves, given the shadows `d` and the registers `r` right before
+    its `with` block -/
+def initCfg (d : Rf24) (r : Radio) : Radio :=
+  { enterCfg d r with ce := false, config := setBit (enterCfg d r).config 1 false }
+
+/-- the `with` block at the end of `__init__`, from a state `t` whose shadows are in programmable
+    range, whose feature registers are accessible and whose variant is known.  No hypothesis on
+    the chip's violation log: that one is only needed for `CfgOk`. -/
+theorem init_finish_post {s t : DrvState} (hst : Steps s t) (hw : s.Wf) (hso : ShadowOk t.d) (hrs : RadioShape t.cfg)
+    (hvis : t.cfg.featureVisible = true) (hip : t.d.isPlus = t.cfg.plus) :
+    Post (exec initSuffix t) t (.ok ()) (initCfg t.d t.cfg) t.d.pipe0ReadAddr := by
   have hf := hst.frame hw
-  have hvis : t.cfg.featureVisible = true := by unfold Radio.featureVisible; rw [hplus]; rfl
+  rw [initSuffix_eq]
+  refine Post.bind_weak (enter_post t hf.1 hso hrs hvis hip) ?_
+  intro s1 hw1 hca1 hc1 hp1
+  refine Post.bind_weak (flushes_post' s1 hw1 hca1) ?_
+  intro s2 hw2 hca2 hc2 hp2
+  have := exit_post' s2 hw2 hca2 (by rw [hc2, hc1]; exact bits_or2 _ hso.config)
+  rw [hc2, hc1, hp2, hp1] at this
+  exact this
+
+theorem initCfg_ok {d : Rf24} {r : Radio} (hso : ShadowOk d) (hvis : r.featureVisible = true)
+    (hlog : LogOk r.violations) : CfgOk (initCfg d r) :=
   have hok := enterCfg_ok hso hvis hlog
-  have hpost : Post (exec initSuffix t) t (.ok ())
-      { enterCfg t.d t.cfg with ce := false, config := setBit (enterCfg t.d t.cfg).config 1 false }
-      t.d.pipe0ReadAddr := by
-    rw [initSuffix_eq]
-    refine Post.bind (enter_post t hf.1 hso hrs hvis (hip.trans hplus.symm)) hok hso.user0 ?_
-    intro s1 h1 hc1 hp1
-    refine Post.bind (flushes_post s1 h1) h1.ok h1.user0 ?_
-    intro s2 h2 hc2 hp2
-    have := exit_post s2 h2
-    rw [hc2, hc1, hp2, hp1] at this
-    exact this
-  refine ⟨hpost.res, hpost.inv ((hok.set_ce false).set_config (ok_bits7 _ hok.config 1 (by decide) _)) hso.user0, ?_⟩
-  intro j hj
-  rw [hpost.frame j (by rw [hf.2.1]; exact hj), hf.2.2 j hj]
+  (hok.set_ce false).set_config (ok_bits7 _ hok.config 1 (by decide) _)
 
-theorem init_eq : init = (do
-    setCE false
-    regWrite CONFIGURE (← getD).config
-    if (← regRead CONFIGURE) ≠ (← getD).config then raise .runtimeError
-    let p0 ← regReadBytes RX_ADDR_P0
-    let p1 ← regReadBytes (RX_ADDR_P0 + 1)
-    let p2 ← regRead (RX_ADDR_P0 + 2)
-    let p3 ← regRead (RX_ADDR_P0 + 3)
-    let p4 ← regRead (RX_ADDR_P0 + 4)
-    let p5 ← regRead (RX_ADDR_P0 + 5)
-    modD fun d => { d with pipes0 := p0, pipes1 := p1, pipesN := [p2, p3, p4, p5],
-                           openPipes := 0, isPlus := false }
-    let f ← regRead TX_FEATURE
-    modD fun d => { d with features := f }
-    regWrite 0x50 0x73
-    let after ← regRead TX_FEATURE
-    if f = after then modD fun d => { d with isPlus := true }
-    else if after = 0 then regWrite 0x50 0x73
-    modD fun d => { d with features := 5, pipe0ReadAddr := none }
-    let ta ← regReadBytes TX_ADDRESS
-    modD fun d => { d with txAddress := ta, retrySetup := 0x5F, rfSetup := 0x07, dynPl := 0x3F,
-                           aa := 0x3F, channel := 76, addrLen := 5, plLen := [32, 32, 32, 32, 32, 32] }
-    initSuffix) := rfl
+/-! ### `__init__` = probe and capture; detect the variant; default shadows and the `with` block -/
 
-theorem init_inv (s : DrvState) (hw : s.Wf) (hr : RadioShape s.cfg) (hplus : s.cfg.plus = true)
-    (hlog : LogOk s.cfg.violations) (hd : s.d.config = 0x0E) :
-    (exec init s).1 = .ok () ∧ Inv (exec init s).2 ∧
-    (∀ j, j ≠ s.d.rid → (exec init s).2.cfgAt j = s.cfgAt j) := by
+/-- first part of `__init__`: probe the chip, capture the RX addresses -/
+def initPre : DrvM Unit := do
+  setCE false
+  regWrite CONFIGURE (← getD).config
+  if (← regRead CONFIGURE) ≠ (← getD).config then raise .runtimeError
+  let p0 ← regReadBytes RX_ADDR_P0
+  let p1 ← regReadBytes (RX_ADDR_P0 + 1)
+  let p2 ← regRead (RX_ADDR_P0 + 2)
+  let p3 ← regRead (RX_ADDR_P0 + 3)
+  let p4 ← regRead (RX_ADDR_P0 + 4)
+  let p5 ← regRead (RX_ADDR_P0 + 5)
+  modD fun d => { d with pipes0 := p0, pipes1 := p1, pipesN := [p2, p3, p4, p5],
+                         openPipes := 0, isPlus := false }
+
+/-- third part of `__init__`: the default shadows -/
+def initDefaults : DrvM Unit := do
+  modD fun d => { d with features := 5, pipe0ReadAddr := none }
+  let ta ← regReadBytes TX_ADDRESS
+  modD fun d => { d with txAddress := ta, retrySetup := 0x5F, rfSetup := 0x07, dynPl := 0x3F,
+                         aa := 0x3F, channel := 76, addrLen := 5, plLen := [32, 32, 32, 32, 32, 32] }
+
+/-- last part of `__init__`: the default shadows, then `with self: flush_rx(); flush_tx(); clear_status_flags()` -/
+def initPost : DrvM Unit := do
+  initDefaults
+  initSuffix
+
+theorem ite_bind_drv {α β} (c : Prop) [Decidable c] (a b : DrvM α) (k : α → DrvM β) :
+    (if c then a else b) >>= k = if c then a >>= k else b >>= k := by split <;> rfl
+
+/-- the middle part is `detect` (`NrfProofs/InitDetect.lean`) -/
+theorem init_eq : init = (do initPre; detect; initPost) := by
+  unfold init initPre detect initPost initDefaults initSuffix
+  simp only [bind_assoc, ite_bind_drv]
+
+/-- the shadows the first part leaves -/
+def preShadow (d : Rf24) (r : Radio) (st : Nat) : Rf24 :=
+  { d with pipes0 := r.rxAddr0, pipes1 := r.rxAddr1,
+           pipesN := [r.rxAddrN.getD 0 0, r.rxAddrN.getD 1 0, r.rxAddrN.getD 2 0, r.rxAddrN.getD 3 0],
+           openPipes := 0, isPlus := false, status := st }
+
+theorem initPre_spec (s : DrvState) (hw : s.Wf) (hr : RadioShape s.cfg) (hd : s.d.config = 0x0E) :
+    ∃ t, exec initPre s = (.ok (), t) ∧ Steps s t ∧ t.cfg = { s.cfg with ce := false, config := 14 } ∧
+      t.d = preShadow s.d s.cfg t.d.status := by
   have hre : Reach s ((s.ceStep false).spiStep [32 ||| 0, 14])
       (({ s.cfg with ce := false } : Radio).writeReg 0 [14]).cfgOf := by reach hw
   have hT0 : ((s.ceStep false).spiStep [32 ||| 0, 14]).cfg = { s.cfg with ce := false, config := 14 } := by
     rw [hre.cfg, Radio.w_config _ _ (by decide) (.inl rfl)]; rfl
-  have hvis' : (s.cfg.plus || s.cfg.activated) = true := by rw [hplus]; rfl
-  rw [init_eq]
+  unfold initPre
   exec_simp [hd]
   rw [exec_regWrite_nat _ _ _ (by decide) (by decide)]
   exec_simp [hw, exec_regReadBytes', Nat.reduceAdd, readBytes_after_read, readBytes_modShadow, spiStep_read_cfg,
     modShadow_cfg']
   simp only [readVal_eq, readBytes_eq, hT0, Nat.reduceLT, Nat.reduceEqDiff, ne_eq, not_false_eq_true, and_self,
-    true_or, or_true, Radio.readReg, List.headD_cons, Radio.featureVisible, hvis', ↓reduceIte, hd,
+    true_or, or_true, Radio.readReg, List.headD_cons, ↓reduceIte, hd,
     clockOut_full _ hr.a0, clockOut_full _ hr.a1]
-  rw [show ((115 : Int)) = ((115 : Nat) : Int) from rfl, exec_regWrite_activate _ _ (by decide)]
-  exec_simp_deep [hw, not_true_eq_false, spiStep_activate_cfg, spiStep_read_cfg, modShadow_cfg', hT0, hplus, hvis',
-    Bool.true_or, exec_regReadBytes', readBytes_after_read, readBytes_modShadow, readBytes_after_activate,
-    readBytes_eq, Radio.readReg, clockOut_full _ hr.tx]
-  have hgetD : ∀ i, s.cfg.rxAddrN.getD i 0 < 256 := by
+  refine ⟨_, rfl, by steps, ?_, ?_⟩
+  · simp (maxDischargeDepth := 8) only [hw, spiStep_read_cfg, modShadow_cfg', hT0, spiStep_wf, ceStep_wf,
+      modShadow_wf', implies_true, Nat.reduceLT]
+  · simp only [spiStep_d', modShadow_d, ceStep_d, preShadow]
+
+/-- the shadows the third part leaves -/
+def defaultShadow (d : Rf24) (r : Radio) (st : Nat) : Rf24 :=
+  { d with features := 5, pipe0ReadAddr := none, txAddress := r.txAddr, retrySetup := 0x5F, rfSetup := 0x07,
+           dynPl := 0x3F, aa := 0x3F, channel := 76, addrLen := 5, plLen := [32, 32, 32, 32, 32, 32], status := st }
+
+theorem initDefaults_spec (t : DrvState) (hw : t.Wf) (htx : t.cfg.txAddr.length = 5) :
+    ∃ T, exec initDefaults t = (.ok (), T) ∧ Steps t T ∧ T.cfg = t.cfg ∧
+      T.d = defaultShadow t.d t.cfg T.d.status := by
+  unfold initDefaults
+  exec_simp [exec_regReadBytes', readBytes_modShadow]
+  rw [readBytes_eq _ _ (.inr (.inr rfl))]
+  simp only [Radio.readReg, clockOut_full _ htx]
+  refine ⟨_, rfl, by steps, ?_, ?_⟩
+  · rw [modShadow_cfg _ _ rfl, spiStep_read_cfg _ _ _ ((modShadow_wf _ _ rfl).2 hw) (by decide),
+      modShadow_cfg _ _ rfl]
+  · simp only [spiStep_d', modShadow_d, defaultShadow]
+
+/-- the shadows right before the `with` block of `__init__`: the adopted addresses, the defaults,
+    the detected variant -/
+def initShadowOf (d : Rf24) (r : Radio) (st : Nat) : Rf24 :=
+  { defaultShadow (preShadow d r 0) r st with isPlus := r.plus }
+
+theorem initShadowOf_ok (d : Rf24) (r : Radio) (st : Nat) (hr : RadioShape r) (hd : d.config = 0x0E) :
+    ShadowOk (initShadowOf d r st) := by
+  have hgetD : ∀ i, r.rxAddrN.getD i 0 < 256 := by
     intro i
     rw [List.getD_eq_getElem?_getD]
-    cases hi : s.cfg.rxAddrN[i]? with
+    cases hi : r.rxAddrN[i]? with
     | none => decide
     | some x => exact hr.aNw x (List.mem_of_getElem? hi)
-  refine init_finish (by steps) hw ?_ ?_ ?_ ?_ ?_
-  · constructor <;> simp only [spiStep_d', modShadow_d, ceStep_d, hd]
-    · decide
-    · decide
-    · decide
-    · decide
-    · decide
-    · decide
-    · decide
-    · exact ⟨hr.a0, hr.a0w⟩
-    · exact ⟨hr.a1, hr.a1w⟩
-    · refine ⟨rfl, ?_⟩
-      intro x hx
-      simp only [List.mem_cons, List.not_mem_nil, or_false] at hx
-      rcases hx with h | h | h | h <;> (rw [h]; exact hgetD _)
-    · exact ⟨hr.tx, hr.txw⟩
-    · rfl
-    · decide
-    · decide
-    · intro ra hra; cases hra
-  all_goals
-    simp (maxDischargeDepth := 8) only [hw, spiStep_activate_cfg, spiStep_read_cfg, modShadow_cfg', hT0, hplus,
-      spiStep_wf, ceStep_wf, modShadow_wf', implies_true, Nat.reduceLT, spiStep_d', modShadow_d, ceStep_d]
-  · exact ⟨hr.a0, hr.a1, hr.aN, hr.tx, hr.pw, hr.a0w, hr.a1w, hr.aNw, hr.txw⟩
-  · exact hlog
+  constructor <;> simp only [initShadowOf, defaultShadow, preShadow, hd]
+  · decide
+  · decide
+  · decide
+  · decide
+  · decide
+  · decide
+  · decide
+  · exact ⟨hr.a0, hr.a0w⟩
+  · exact ⟨hr.a1, hr.a1w⟩
+  · refine ⟨rfl, ?_⟩
+    intro x hx
+    simp only [List.mem_cons, List.not_mem_nil, or_false] at hx
+    rcases hx with h | h | h | h <;> (rw [h]; exact hgetD _)
+  · exact ⟨hr.tx, hr.txw⟩
+  · rfl
+  · decide
+  · decide
+  · intro ra hra; cases hra
+
+theorem DetReach.toSteps {s t : DrvState} (h : DetReach s t) : Steps s t := by
+  induction h with
+  | refl => exact .refl
+  | spi out _ ih => exact .spi out ih
+  | mod f hf _ ih => exact .mod f hf ih
+
+/-- **`__init__`**, from any well-formed state whose CONFIG shadow is the constructor's 0x0E — plus or
+    non-plus chip, feature registers locked or unlocked, any register contents (in hardware shape):
+    returns normally; the cache equals a register file `c` (so `_is_plus_variant` is the chip's
+    variant) in which the feature registers are accessible; no other radio is touched; `c` is within
+    the documented ranges if nothing reserved had been logged before. -/
+theorem init_post (s : DrvState) (hw : s.Wf) (hr : RadioShape s.cfg) (hd : s.d.config = 0x0E) :
+    ∃ c, Post (exec init s) s (.ok ()) c none ∧ c.plus = s.cfg.plus ∧ c.featureVisible = true ∧
+      (LogOk s.cfg.violations → CfgOk c) := by
+  rw [init_eq]
+  -- probe and capture
+  obtain ⟨t1, hex1, hst1, hc1, hd1⟩ := initPre_spec s hw hr hd
+  rw [det_bind hex1]
+  have hw1 : t1.Wf := (hst1.frame hw).1
+  have hip1 : t1.d.isPlus = false := by rw [hd1]; rfl
+  -- variant detection
+  obtain ⟨t2, ft, hex2, hat2, hft⟩ := detect_spec t1 hw1 hip1
+  rw [det_bind hex2]
+  have hst2 : Steps t1 t2 := hat2.reach.toSteps
+  have hw2 : t2.Wf := (hst2.frame hw1).1
+  obtain ⟨fs, st2, hd2⟩ := hat2.d
+  have hc2 := hat2.cfg
+  rw [hc1] at hc2 hft
+  have hplus2 : t2.cfg.plus = s.cfg.plus := by rw [hc2]
+  have hvis2 : t2.cfg.featureVisible = true := by
+    rw [hc2]; unfold Radio.featureVisible
+    show (s.cfg.plus || (if s.cfg.plus = true then s.cfg.activated else true)) = true
+    cases s.cfg.plus <;> rfl
+  -- default shadows
+  unfold initPost
+  have htx2 : t2.cfg.txAddr.length = 5 := by rw [hc2]; exact hr.tx
+  obtain ⟨T, hexT, hstT, hcT, hdT'⟩ := initDefaults_spec t2 hw2 htx2
+  rw [det_bind hexT]
+  have hwT : T.Wf := (hstT.frame hw2).1
+  have hdT : T.d = initShadowOf s.d s.cfg T.d.status := by
+    rw [hdT', hd2, hd1, hc2, hc1]
+    rfl
+  have hso : ShadowOk T.d := by rw [hdT]; exact initShadowOf_ok _ _ _ hr hd
+  have hrsT : RadioShape T.cfg := by
+    rw [hcT, hc2]
+    exact ⟨hr.a0, hr.a1, hr.aN, hr.tx, hr.pw, hr.a0w, hr.a1w, hr.aNw, hr.txw⟩
+  have hipT : T.d.isPlus = T.cfg.plus := by rw [hcT, hplus2, hdT]; rfl
+  have hst : Steps s T := (hst1.trans hst2).trans hstT
+  have hfin := init_finish_post hst hw hso hrsT (hcT ▸ hvis2) hipT
+  have hp0T : T.d.pipe0ReadAddr = none := by rw [hdT]; rfl
+  rw [hp0T] at hfin
+  have hfr := hst.frame hw
+  refine ⟨initCfg T.d T.cfg, ?_, ?_, ?_, ?_⟩
+  · exact ⟨hfin.res, hfin.cfg, hfin.p0, hfin.cached, hfin.wf, hfin.rid.trans hfr.2.1,
+      fun j hj => (hfin.frame j (by rw [hfr.2.1]; exact hj)).trans (hfr.2.2 j hj)⟩
+  · show T.cfg.plus = _
+    rw [hcT, hplus2]
+  · show (T.cfg.plus || T.cfg.activated) = true
+    exact hcT ▸ hvis2
+  · intro hlog
+    refine initCfg_ok hso (hcT ▸ hvis2) ?_
+    rw [hcT, hc2]
+    exact hlog
+
+/-- `__init__` establishes the invariant — on a plus **or non-plus** chip, whatever state its
+    feature registers were in -/
+theorem init_inv (s : DrvState) (hw : s.Wf) (hr : RadioShape s.cfg)
+    (hlog : LogOk s.cfg.violations) (hd : s.d.config = 0x0E) :
+    (exec init s).1 = .ok () ∧ Inv (exec init s).2 ∧
+    (∀ j, j ≠ s.d.rid → (exec init s).2.cfgAt j = s.cfgAt j) := by
+  obtain ⟨c, hpost, _, _, hok⟩ := init_post s hw hr hd
+  exact ⟨hpost.res, hpost.inv (hok hlog) (by intro ra hra; cases hra), hpost.frame⟩
 
 /-- shadows that equal in-range registers are in programmable range: `with` can be re-entered -/
 theorem Inv.shadowOk {s : DrvState} (h : Inv s) : ShadowOk s.d where
